@@ -135,6 +135,21 @@ pub fn run(ctx: &Ctx) -> i32 {
         let (ra, rb) = (format!("{}/with", base), format!("{}/without", base));
         std::fs::create_dir_all(&ra).unwrap();
         std::fs::create_dir_all(&rb).unwrap();
+        let (mut with, mut without) = (with, without);
+        if rng.chance(1, 5) {
+            // an eligible file and a directory of eligible files reached through symbolic links (analysed like any other)
+            std::fs::create_dir_all(format!("{}/shared/vendor", base)).unwrap();
+            std::fs::write(format!("{}/shared/vendor/Linked.sol", base), rng.pick(&pool.progs).1.as_bytes()).unwrap();
+            std::fs::write(format!("{}/shared/Single.sol", base), rng.pick(&pool.progs).1.as_bytes()).unwrap();
+            std::fs::write(format!("{}/shared/notes.txt", base), b"not solidity").unwrap();
+            for t in [&mut with, &mut without] {
+                t.push(Ent::Link { name: "vendor".into(), target: "../shared/vendor".into() });
+                t.push(Ent::Link { name: "LinkedFile.sol".into(), target: "../shared/Single.sol".into() });
+            }
+            // and a decoy link: an ineligible name pointing at a Solidity file
+            with.push(Ent::Link { name: "link.txt".into(), target: "../shared/Single.sol".into() });
+            acc.cov("trees-with-symlinks");
+        }
         build(&ra, &with);
         build(&rb, &without);
         let all = all_dets();
